@@ -28,6 +28,7 @@ type callersModel struct {
 	pcs    []pcInfo
 	index  map[pcInfo]int
 	frames map[*value]*framesIter
+	funcs  map[*value]string
 }
 
 type framesIter struct {
@@ -119,12 +120,10 @@ func elidedFrame(fn *ssa.Function) bool {
 
 // logicalStack lists the frames seen by runtime.Callers called from fr: index 0 is runtime.Callers itself.
 func logicalStack(fr *frame, self string) []pcInfo {
+	// fr is the frame of the runtime function itself (external functions get their own frame)
 	fset := fr.i.prog.Fset
-	out := []pcInfo{{fn: self}}
+	var out []pcInfo
 	pos := token.NoPos
-	if fr.cur != nil {
-		pos = fr.cur.Pos()
-	}
 	for f := fr; f != nil; f = f.caller {
 		if !elidedFrame(f.fn) {
 			p := fset.Position(pos)
@@ -213,6 +212,24 @@ func init() {
 		return tuple{makeRuntimeFrame(fr, info, pc, ok), it.pos < len(it.pcs)}
 	}
 	I["runtime.FuncForPC"] = func(fr *frame, args []value) value {
-		panic(engineError{"runtime.FuncForPC is not modelled"})
+		m := fr.i.p.callers()
+		info, ok := m.info(uint64(args[0].(uintptr)))
+		if !ok {
+			return (*value)(nil)
+		}
+		cell := new(value)
+		*cell = zero(fr.i.prog.ImportedPackage("runtime").Type("Func").Type().Underlying())
+		if m.funcs == nil {
+			m.funcs = map[*value]string{}
+		}
+		m.funcs[cell] = info.fn
+		return cell
+	}
+	I["(*runtime.Func).Name"] = func(fr *frame, args []value) value {
+		ptr, _ := args[0].(*value)
+		if ptr == nil {
+			return ""
+		}
+		return fr.i.p.callers().funcs[ptr]
 	}
 }
